@@ -5,11 +5,19 @@
     margin |phi - phi_max| exceeds 1e-9 and (x,y) is not the origin (atan2's signed-zero conventions);
     skipped cases get the tag 9900+op.
     Path tags = 100 * op + the model's own tag of the decision; ops without rays: 2 tri_new, 5 plane_new, 8 Plane3D::test_point
-    (801 false / 802 true), 9 Ray3D::advance (901), 10 / 11 disk constructors, 18 disk area, 20 distant_new, 25 DistantSource3D::area (2501). *)
-From G3 Require Import Run.Harness Model.Vec Model.BBox Model.Transform Model.Hit Model.Segment Model.Triangle
+    (801 false / 802 true), 9 Ray3D::advance (901), 10 / 11 disk constructors, 18 disk area, 20 distant_new, 25 DistantSource3D::area (2501).
+
+    The runner text is written once, in a section over the number instance [NK : Num float] and the two libm
+    parameters ([tol]: closeness of libm-dependent values; [margin]: the least |phi - phi_max| at which a decision
+    on a libm result is compared): module [Flat] instantiates it on [NumF] (2^-40, 1e-9) for the f64 build, module
+    [Flatf32] on [NumF32fast] (= [NumF32], proved in Run/FastNum32Proof.v: the rounding to binary32 done by primitive
+    operations) with 2^-20 = 8 ulp32 and 2^-16, for the build with `--features float`. *)
+From G3 Require Import Run.Harness Run.FastNum32 Model.NumF32 Model.Vec Model.BBox Model.Transform Model.Hit Model.Segment Model.Triangle
   Model.Plane Model.Disk Model.Distant.
 
 Definition K := float.
+Section WithInstance.
+Context {NK : Num float} (tol margin : float).
 Definition fl (l : list spec_float) (i : nat) : K := SF2Prim (nthsf l i).
 Definition v_of (l : list spec_float) (o : nat) : V3 K := mkV3 (fl l o) (fl l (o+1)) (fl l (o+2)).
 Definition m4_of (l : list spec_float) (o : nat) : M4 K :=
@@ -34,7 +42,7 @@ Definition panic_out : list X := [ex 2%float].
 Fixpoint cmp (a : list X) (b : list spec_float) : bool :=
   match a, b with
   | [], [] => true
-  | (x, c) :: a, y :: b => (if c then fclose 0x1p-40 x (SF2Prim y) else sf_eqb (Prim2SF x) y) && cmp a b
+  | (x, c) :: a, y :: b => (if c then fclose tol x (SF2Prim y) else sf_eqb (Prim2SF x) y) && cmp a b
   | _, _ => false
   end.
 
@@ -62,10 +70,10 @@ Definition disk_skip (d : Disk K) (lray : Ray K) : bool :=
   | Some t =>
     let phit := ray_project lray t in
     let r_squared := vlen2 (vsub phit (dk_centre d)) in
-    if ((dk_radius d * dk_radius d <? r_squared) || (r_squared <? dk_inner d * dk_inner d))%float then false else
+    if ((r_squared >? dk_radius d * dk_radius d) || (r_squared <? dk_inner d * dk_inner d))%num then false else
     let '(x, y) := disk_xy d phit in
     let phi := disk_phi d phit in
-    ((x =? 0) && (y =? 0))%float || (abs (phi - dk_phi_max d) <=? 0x1.12e0be826d695p-30)%float || is_nan phi
+    ((x =? 0) && (y =? 0))%float || (abs (phi - dk_phi_max d) <=? margin)%float || is_nan phi
   end.
 
 Definition get_side_dbg (dbg : bool) (n : V3 K) : bool := dbg && negb (get_side_debug_ok n).
@@ -182,6 +190,13 @@ Definition chk (c : N * list spec_float * list spec_float * list spec_float) : N
   | _ => let '(o, t, s) := run_rays 4 op p rays in fin o t s
   end%N.
 
+End WithInstance.
+
 Module Flat.
-  Definition run := run_cases chk.
+  Definition run := run_cases (@chk NumF 0x1p-40 0x1.12e0be826d695p-30).
 End Flat.
+(** the f32 build: the same runner on the binary32 instance; the platform's sinf / cosf / atan2f / acosf against the
+    correctly rounded binary32 image of the software libm: a few ulp32 *)
+Module Flatf32.
+  Definition run := run_cases (@chk NumF32fast 0x1p-20 0x1p-16).
+End Flatf32.
